@@ -276,6 +276,8 @@ pub struct World {
     pub key_seq: HashMap<String, usize>,
     /// metadata of every block as recorded when it was committed: (info, parents, packs)
     pub block_meta: BTreeMap<String, (Value, BTreeSet<String>, Vec<String>)>,
+    /// value of every (object, revision) as first observed on any replica
+    pub rev_values: HashMap<String, Map<String, Value>>,
     pub stats: BTreeMap<String, usize>,
     pub op_index: usize,
     pub light: bool,
@@ -346,6 +348,7 @@ impl World {
             fails: vec![],
             key_seq: HashMap::new(),
             block_meta: BTreeMap::new(),
+            rev_values: HashMap::new(),
             stats: BTreeMap::new(),
             op_index: 0,
             light,
@@ -631,13 +634,44 @@ impl World {
             }
         }
         let mut unreadable = vec![];
+        let mut wrong_value = vec![];
+        let mut changed_value = vec![];
+        let bodies = stored_bodies(m, &self.reps[r].be.snapshot());
         for u in m.get_all_objects() {
             for (rev, _, _) in m.verif_tree_dump(&u).unwrap_or_default() {
                 match catch_unwind(AssertUnwindSafe(|| m.get_value(&u, Some(&rev)))) {
-                    Ok(Ok(_)) => {}
+                    Ok(Ok(v)) => {
+                        // the value of a revision is the object stored under its digest ...
+                        if let Some(b) = body_of(&bodies, &rev) {
+                            if b != &v {
+                                wrong_value.push(format!("{} of {}: get_value {} stored {}", rev, u, js(&Value::from(v.clone())), js(&Value::from(b.clone()))));
+                            }
+                        }
+                        // ... and never changes, on any replica, whatever arrives later
+                        let key = format!("{}\u{0}{}", u, rev);
+                        match self.rev_values.get(&key) {
+                            Some(old) if old != &v => changed_value.push(format!("{} of {}: {} before, {} now", rev, u, js(&Value::from(old.clone())), js(&Value::from(v.clone())))),
+                            Some(_) => {}
+                            None => {
+                                self.rev_values.insert(key, v);
+                            }
+                        }
+                    }
                     _ => unreadable.push(format!("{} of {}", rev, u)),
                 }
             }
+        }
+        let m = self.reps[r].m.as_ref().unwrap();
+        let _ = m;
+        if !wrong_value.is_empty() {
+            let w = format!("get_value does not return the stored object of the revision: {}", wrong_value[0]);
+            self.fail("C14", w.clone());
+            self.fail("C11", w);
+        }
+        if !changed_value.is_empty() {
+            let w = format!("the value of a recorded revision changed: {}", changed_value[0]);
+            self.fail("C14", w.clone());
+            self.fail("C19", w);
         }
         if !unreadable.is_empty() {
             let w = format!("a block was applied although the object of a revision it records cannot be read: {:?}", &unreadable[..unreadable.len().min(3)]);
@@ -685,6 +719,7 @@ impl World {
         if let Some(doc) = rd.get("ok") {
             let mut ids = vec![];
             collect_objects(doc, &mut ids);
+            let tree_bodies = stored_bodies(m, &self.reps[r].be.snapshot());
             let mut seen = BTreeSet::new();
             for (id, _) in &ids {
                 if !seen.insert(id.clone()) {
@@ -710,7 +745,7 @@ impl World {
                 }
                 let dump = m.verif_tree_dump(&u).unwrap_or_default();
                 let (leafs, _) = independent_leafs(&dump);
-                let worder = match leaf_order(m, &u, &w, &dump) {
+                let worder = match leaf_order(&tree_bodies, &u, &w, &dump) {
                     Some(o) => o,
                     None => {
                         fails.push(("C16", format!("stored version {} of array {} cannot be reconstructed", w, u)));
@@ -730,7 +765,7 @@ impl World {
                 }
                 let mut union: BTreeSet<String> = BTreeSet::new();
                 for l in &leafs {
-                    match leaf_order(m, &u, l, &dump) {
+                    match leaf_order(&tree_bodies, &u, l, &dump) {
                         Some(o) => union.extend(o),
                         None => fails.push(("C16", format!("stored version {} of array {} cannot be reconstructed", l, u))),
                     }
@@ -2348,13 +2383,60 @@ pub fn independent_leafs(dump: &[(String, Option<String>, bool)]) -> (Vec<String
     (leafs, w)
 }
 
+/// The bodies a replica holds, read from its storage bytes and its exported stage - not through `get_value`:
+/// digest -> object, from every hash-valid pack written the way the library writes packs, plus the staged bodies.
+fn stored_bodies(m: &Melda, items: &Items) -> BTreeMap<String, Map<String, Value>> {
+    let mut out = BTreeMap::new();
+    for (k, v) in items {
+        if let Some(name) = k.strip_suffix(".pack") {
+            if digest_bytes(v) != name {
+                continue;
+            }
+            if let Ok(Value::Array(objs)) = serde_json::from_slice::<Value>(v) {
+                for o in objs {
+                    if let Value::Object(o) = o {
+                        out.insert(digest_string(&js(&Value::from(o.clone()))), o);
+                    }
+                }
+            }
+        }
+    }
+    if let Ok(Ok(Some(st))) = catch_unwind(AssertUnwindSafe(|| m.stage())) {
+        if let Some(os) = st.get("o").and_then(|x| x.as_object()) {
+            for (d, o) in os {
+                if let Value::Object(o) = o {
+                    out.entry(d.clone()).or_insert(o.clone());
+                }
+            }
+        }
+    }
+    out
+}
+
+/// the body of a revision according to `stored_bodies` (None: a marker / character code / not stored)
+fn body_of<'a>(bodies: &'a BTreeMap<String, Map<String, Value>>, rev: &str) -> Option<&'a Map<String, Value>> {
+    let dg = rev.splitn(2, '-').nth(1).unwrap_or("").split('_').next().unwrap_or("");
+    bodies.get(dg)
+}
+
 /// order of an array version, reconstructed from the stored objects with the harness' own patch code
-fn leaf_order(m: &Melda, uuid: &str, rev: &str, dump: &[(String, Option<String>, bool)]) -> Option<Vec<String>> {
+fn leaf_order(bodies: &BTreeMap<String, Map<String, Value>>, uuid: &str, rev: &str, dump: &[(String, Option<String>, bool)]) -> Option<Vec<String>> {
+    let _ = uuid;
     let mut chain = vec![];
     let mut cur = rev.to_string();
     let base: Vec<Value>;
     loop {
-        let o = catch_unwind(AssertUnwindSafe(|| m.get_value(uuid, Some(&cur)))).ok()?.ok()?;
+        // the stored object of the version (never obtained from the library's own get_value)
+        let dg = cur.splitn(2, '-').nth(1).unwrap_or("").split('_').next().unwrap_or("").to_string();
+        let o: Map<String, Value> = if dg == "d" {
+            json!({"_deleted": true}).as_object().unwrap().clone()
+        } else if dg == "r" {
+            json!({"_resolved": true}).as_object().unwrap().clone()
+        } else if dg == "e" {
+            Map::new()
+        } else {
+            body_of(bodies, &cur)?.clone()
+        };
         if let Some(a) = o.get("A") {
             base = a.as_array()?.clone();
             break;
